@@ -87,6 +87,12 @@ var strategies = map[string]stratCtor{
 		s.Vwma.Period, s.Sma.Period = n[0], n[0]
 		return s
 	},
+	// the two moving averages of the VWMA strategy configured separately (two exported fields)
+	"VwmaG": func(n []int, f []float64) strategy.Strategy {
+		s := strend.NewVwmaStrategy()
+		s.Sma.Period, s.Vwma.Period = n[0], n[1]
+		return s
+	},
 	"WeightedClose": func(n []int, f []float64) strategy.Strategy { return strend.NewWeightedCloseStrategyWith(n[0]) },
 	"AwesomeOscillator": func(n []int, f []float64) strategy.Strategy {
 		s := smomentum.NewAwesomeOscillatorStrategy()
